@@ -342,6 +342,51 @@ pub fn par_case(rng: &mut Rng, max_samples: usize) -> Case {
 
 /// More than 1024 (often more than 2048) frames: 2- and 3-byte frame numbers, STREAMINFO extremes
 /// set by late frames (amplitude ramps up or down over the stream), long runs of the hash queue.
+/// Frames whose length sits on / next to a boundary of the frame header's block-size code classes:
+/// 192, 576*2^n (n = 0..=5: 9216 and 18432 are multiples that are NOT in the coded family),
+/// 256*2^n, the powers of two below 256, 192*2^n, and the neighbours +-1 of each. The length is
+/// reached either as the block size (full frames) or as a short final block of a larger block size.
+pub fn sizeclass_case(rng: &mut Rng) -> Case {
+    const BASE: [usize; 30] = [16, 32, 64, 96, 128, 144, 192, 256, 288, 384, 512, 576, 768, 1024, 1152, 1536, 2048, 2304, 3072, 4096, 4608, 6144, 8192, 9216, 12288, 16384, 18432, 24576, 32767, 255];
+    let mut len = *rng.pick(&BASE);
+    match rng.usize_below(6) {
+        0 => len = (len + 1).min(32767),
+        1 => len = len.saturating_sub(1).max(1),
+        _ => {}
+    }
+    let as_tail = len < 32 || rng.chance(1, 3);
+    let (block, total) = if as_tail {
+        let block = (len + 1 + rng.usize_below(300)).clamp(32, 32767);
+        if block <= len {
+            (len, len)
+        } else {
+            (block, if rng.flip() { len } else { block + len })
+        }
+    } else {
+        (len, len * (1 + rng.usize_below(2)) + if rng.chance(1, 4) { 1 + rng.usize_below(len.min(40)) } else { 0 })
+    };
+    let channels = *rng.pick(&[1usize, 1, 2, 2, 3]);
+    let bps = *rng.pick(&gen::WIDTHS);
+    let amp = (gen::smax(bps) as f64) * *rng.pick(&[0.0, 0.001, 0.05, 0.6]);
+    let f = 0.01 + rng.f64() * 0.2;
+    let mut samples = vec![0i32; total * channels];
+    for t in 0..total {
+        for c in 0..channels {
+            samples[t * channels + c] = (amp * ((t as f64 * f + c as f64).sin() * 0.8 + (rng.f64() - 0.5) * 0.2)) as i32;
+        }
+    }
+    let mut cfg = gen::gen_config(rng, &ConfigOpts { multithread: None, min_max_parameter: 6 });
+    cfg.block_size = block;
+    cfg.subframe_coding.qlpc.lpc_order = cfg.subframe_coding.qlpc.lpc_order.min(8);
+    Case {
+        audio: Arc::new(Audio { channels, bps, rate: *rng.pick(&[44100usize, 48000, 8000, 96000, 12345]), samples, recipe: format!("sizeclass len={len} {}", if as_tail { "as final block" } else { "as block size" }) }),
+        cfg,
+        block,
+        mode: if rng.flip() { FillMode::Int } else { FillMode::Bytes },
+        hint: rng.flip(),
+    }
+}
+
 pub fn manyframes_case(rng: &mut Rng) -> Case {
     let block = *rng.pick(&[32usize, 32, 33, 48, 64]);
     // one case in twenty crosses 2^16 frames (4-byte coded frame numbers)
@@ -406,6 +451,7 @@ pub fn std_subs(ctx: &Ctx, scale_q: u64, scale_t: u64) -> Vec<Sub> {
         Sub { name: "par", n: n(300, 15_000), gen: Box::new(|r| par_case(r, 6000)) },
         Sub { name: "large", n: n(12, 300), gen: Box::new(|r| gen_case(r, &Limits { max_samples: 300_000, max_blocks: 2, ..Limits::default() })) },
         Sub { name: "manyframes", n: n(16, 300), gen: Box::new(manyframes_case) },
+        Sub { name: "sizeclass", n: n(240, 6000), gen: Box::new(sizeclass_case) },
         Sub { name: "bigblock", n: n(10, 200), gen: Box::new(bigblock_case) },
     ]
 }
@@ -519,7 +565,7 @@ impl flacenc::source::Source for GiantSource {
     }
 }
 
-fn stream_placeholder() -> flacenc::component::Stream {
+pub fn stream_placeholder() -> flacenc::component::Stream {
     flacenc::component::Stream::new(8000, 1, 8).unwrap()
 }
 
@@ -717,6 +763,42 @@ pub fn run_c03(ctx: &Ctx) -> i32 {
             }
         }
     });
+    // byte sources whose container is wider than the byte-rounded sample width (16-bit samples in
+    // 4-byte words, ...). The unchanged tree refuses them (C17's business); IF a stream is emitted,
+    // its STREAMINFO is judged like any other (total = inter-channel samples handed over, MD5 of
+    // the byte-rounded serialisation)
+    let npad = ctx.tier.pick(120, 3000);
+    run_cases(ctx, "padded", npad, &mut out, |idx, out| {
+        let mut rng = Rng::for_case(ctx.seed, "C03.padded", idx);
+        let mut case = gen_case(&mut rng, &Limits { max_samples: 4000, max_blocks: 6, max_block_size: 512, ..Limits::default() });
+        case.cfg.multithread = idx % 2 == 0;
+        case.cfg.workers = NonZeroUsize::new(1 + rng.usize_below(3));
+        case.mode = FillMode::Bytes;
+        case.hint = idx % 4 == 1;
+        let Ok(v) = enc::verified(&case.cfg) else { return };
+        let natural = (case.audio.bps + 7) / 8;
+        let wide = natural + 1 + rng.usize_below(4 - natural.min(3));
+        if wide > 4 || wide == natural {
+            return;
+        }
+        let mut src = TestSource::new(Arc::clone(&case.audio), FillMode::Bytes, case.hint);
+        src.bytes_per_sample = Some(wide);
+        out.evaluations += 1;
+        match enc::encode_stream(&v, &mut src, case.block) {
+            Ok(stream) => match enc::to_bytes(&stream) {
+                Ok(bytes) => {
+                    let rep = refdec::decode_stream(&bytes);
+                    let obs = Observed { stream, bytes, rep, delivered: src.delivered, reads: src.reads };
+                    out.count("padded_container_accepted");
+                    out.distinct.insert(case.key() ^ wide as u64);
+                    oracle_c03(ctx, "padded", idx, &case, &obs, out);
+                }
+                Err(e) => report_obs_err(ctx, "padded", idx, &case, &ObsErr::Ser(e, stream_placeholder()), out),
+            },
+            Err(enc::EncErr::Api(..)) => out.count("padded_container_refused"),
+            Err(e) => report_obs_err(ctx, "padded", idx, &case, &ObsErr::Enc(e), out),
+        }
+    });
     // the 36-bit total-samples field on its own (every tier): totals around 2^32 and up to 2^36-1
     // set through the public setter must be what the serialised STREAMINFO states
     run_cases(ctx, "total36", 24, &mut out, |idx, out| {
@@ -851,6 +933,37 @@ pub fn run_c04(ctx: &Ctx) -> i32 {
                 oracle_c04(ctx, "largest", idx, &case, &obs, out);
             }
             Err(e) => report_obs_err(ctx, "largest", idx, &case, &e, out),
+        }
+    });
+    // block-size arguments outside 32..=32767 (the configuration's own block_size stays valid; the
+    // argument is what counts): refusing them is what the unchanged tree does and is not judged
+    // here (C17 does) - but IF a stream is emitted, it is an emitted stream and its STREAMINFO
+    // must satisfy C04 like any other
+    let nout = ctx.tier.pick(160, 3000);
+    run_cases(ctx, "outside", nout, &mut out, |idx, out| {
+        let mut rng = Rng::for_case(ctx.seed, "C04.outside", idx);
+        let b = match idx % 8 {
+            0..=4 => 1 + (idx as usize / 8) % 31,
+            5 => 0,
+            6 => 32768 + rng.usize_below(3),
+            _ => 65535 + rng.usize_below(3),
+        };
+        let bps = *rng.pick(&gen::WIDTHS);
+        let channels = *rng.pick(&[1usize, 2, 3]);
+        let len = if b == 0 { 100 } else { (b * (1 + rng.usize_below(4)) + rng.usize_below(b)).min(70_000) };
+        let audio = gen::gen_audio(&mut rng, channels, bps, 44100, len);
+        let mut cfg = gen::gen_config(&mut rng, &ConfigOpts::default());
+        cfg.subframe_coding.qlpc.lpc_order = cfg.subframe_coding.qlpc.lpc_order.min(8);
+        let case = Case { audio: Arc::new(audio), cfg, block: b, mode: if rng.flip() { FillMode::Int } else { FillMode::Bytes }, hint: rng.flip() };
+        out.evaluations += 1;
+        match observe(&case) {
+            Ok(obs) => {
+                out.count("outside_block_size_accepted");
+                out.distinct.insert(case.key());
+                oracle_c04(ctx, "outside", idx, &case, &obs, out);
+            }
+            Err(ObsErr::Enc(enc::EncErr::Api(..))) | Err(ObsErr::ConfigRejected(_)) => out.count("outside_block_size_refused"),
+            Err(e) => report_obs_err(ctx, "outside", idx, &case, &e, out),
         }
     });
     let mut subs = std_subs(ctx, 40, 25);
